@@ -176,7 +176,8 @@ fn one(rep: &mut Report, case: u64, rng: &mut Rng, small: bool) {
     let target = rng.below(3);
     let mut parts: Vec<FormPart> = vec![];
     let mut classes: Vec<&'static str> = vec![];
-    let mime = |rng: &mut Rng| rng.pick(&["image/png", "text/plain", "application/octet-stream", "application/vnd.ms-excel; charset=utf-8", "image/svg+xml"]).to_string();
+    // "" = the part has no Content-Type header at all (it is optional; RFC 7578 4.4): the file's media type is then empty, whatever earlier parts said
+    let mime = |rng: &mut Rng| rng.pick(&["image/png", "text/plain", "application/octet-stream", "application/vnd.ms-excel; charset=utf-8", "image/svg+xml", "", ""]).to_string();
     let fname = |rng: &mut Rng| rng.pick(&["a.png", "my file (1).txt", "狼.jpg", "x", "archive.tar.gz", "semi;colon.txt"]).to_string();
     let mut content = |rng: &mut Rng, classes: &mut Vec<&'static str>| -> Vec<u8> { let (c, k) = gen_content(rng); classes.push(k); if small && c.len() > 200 { c[..200].to_vec() } else { c } };
     // what the shape is: fits the target or not
